@@ -235,7 +235,11 @@ func c13Mutate(r *core.Rand, words []string) ([]string, string, string) {
 	ws := append([]string{}, words...)
 	sep := " "
 	kind := ""
-	switch r.Intn(9) {
+	switch r.Intn(10) {
+	case 9: // separators that are white space for Unicode but not for ASCII-only code
+		seps := []string{"\u00a0", "\u3000", "\u2003", "\u0085", "\v", "\f", " \u00a0"}
+		sep = seps[r.Intn(len(seps))]
+		kind = "respace-unicode"
 	case 0: // substitute one word by another list word
 		ws[r.Intn(len(ws))] = refWords[r.Intn(2048)]
 		kind = "subst-listword"
@@ -288,6 +292,12 @@ func c13Mutate(r *core.Rand, words []string) ([]string, string, string) {
 func c13CheckSentence(t *core.T, s, kind string) {
 	t.Eval(1)
 	words := refFields(s)
+	if kind == "respace-unicode" {
+		// whether such a character separates words is not fixed by the statement: the sentence may be
+		// refused; if it is accepted it is the word sequence a Unicode-aware split gives, and entropy
+		// and seed must be those of that sequence
+		words = strings.Fields(s)
+	}
 	ent, why := refBip39Decode(words)
 	refOK := why == ""
 	gotEnt, err1 := keystore.EntropyFromMnemonic(s)
@@ -310,6 +320,8 @@ func c13CheckSentence(t *core.T, s, kind string) {
 		}
 	}
 	switch {
+	case refOK && !accepted && kind == "respace-unicode":
+		t.Count("unicode_separated_sentences_refused", 1)
 	case refOK && !accepted:
 		t.Violatef("valid-rejected:"+kind, w, "import path rejects a sentence with legal length, list words and correct checksum (%s)", kind)
 	case !refOK && accepted:
